@@ -294,7 +294,20 @@ pub fn exec(op: &[&str]) -> String {
                             batch.push(it.next().unwrap());
                             i += 1;
                         }
-                        list.extend(batch);
+                        // the iterator handed to `extend`: a Vec, or adaptors whose size_hint lower
+                        // bound is 0 although they yield everything (filter, filter_map, from_fn,
+                        // take_while, flat_map): what is extended must not depend on the hint
+                        match (batch.len() + i) % 6 {
+                            0 => list.extend(batch),
+                            1 => list.extend(batch.into_iter().filter(|_| true)),
+                            2 => list.extend(batch.into_iter().filter_map(Some)),
+                            3 => {
+                                let mut src = batch.into_iter();
+                                list.extend(std::iter::from_fn(move || src.next()));
+                            }
+                            4 => list.extend(batch.into_iter().take_while(|_| true)),
+                            _ => list.extend(vec![batch].into_iter().flat_map(|v| v.into_iter())),
+                        }
                     }
                     _ => {
                         list.extend(Vec::new());
